@@ -233,6 +233,19 @@ func runC17(c *engine.Ctx) {
 			if err != nil {
 				engine.HarnessError("C17: %v", err)
 			}
+			// a create request refused for its query string (an escape that cannot be decoded) creates nothing
+			for _, q := range []string{"x-id=%zz", "b=%"} {
+				r := w.Do(drv.Req{Method: "PUT", Path: "/" + seqs[i][0], Query: q})
+				h := w.Do(drv.Req{Method: "HEAD", Path: "/" + seqs[i][0]})
+				c.Add(0, 1, 0, 2)
+				if r.Panic == "" && r.Status >= 400 && h.Status != 404 {
+					c.Report(&engine.Violation{Sig: sig("C17", "any", "create-bucket", "refused-but-exists", "unparsable-query"), World: string(kind), History: []string{"PUT /" + seqs[i][0] + "?" + q},
+						Msg: fmt.Sprintf("on %s, PUT /%s?%s is refused (%s) but HEAD of the bucket then answers %s", kind, seqs[i][0], q, r.Short(), h.Short())})
+				}
+				if r.Panic == "" && r.Status < 400 {
+					w.Do(drv.Req{Method: "DELETE", Path: "/" + seqs[i][0]})
+				}
+			}
 			for j, name := range seqs[i] {
 				r := w.Do(drv.Req{Method: "PUT", Path: "/" + name})
 				c.Add(0, 1, 0, 1)
@@ -261,6 +274,17 @@ func runC17(c *engine.Ctx) {
 			if strings.Join(listed, " ") != strings.Join(want, " ") {
 				c.Report(&engine.Violation{Sig: sig("C17", string(kind), "list-buckets", "after-delete", "related-names"), World: string(kind), History: append(append([]string{}, seqs[i]...), "delete "+seqs[i][1]),
 					Msg: fmt.Sprintf("on %s, after creating %q and deleting %q ListBuckets shows %q", kind, seqs[i], seqs[i][1], listed)})
+			}
+			// ... and the two that were not deleted are still there, whole
+			for _, name := range want {
+				h := w.Do(drv.Req{Method: "HEAD", Path: "/" + name})
+				r := w.Do(drv.Req{Method: "PUT", Path: "/" + name})
+				c.Add(0, 1, 0, 2)
+				if h.Status != 200 || r.Status != 409 {
+					c.Report(&engine.Violation{Sig: sig("C17", string(kind), "create-bucket", "sibling-after-delete", "related-names"), World: string(kind), History: append(append([]string{}, seqs[i]...), "delete "+seqs[i][1]),
+						Msg: fmt.Sprintf("on %s, after creating %q and deleting %q: HEAD /%s answers %s and creating it again answers %s (want 200 and 409 BucketAlreadyExists)", kind, seqs[i], seqs[i][1], name, h.Short(), r.Short())})
+					break
+				}
 			}
 			w.Close()
 		}
